@@ -102,6 +102,8 @@ def render_value(env, T, v):
 
 
 def member_text(env, m, ind):
+    if m.get('q') == 'C':            # COMPONENTS OF <type reference> (spec/ArrangeSem.tla)
+        return 'COMPONENTS OF ' + render_type(env, m['t'], ind)
     s = '%s %s' % (m['n'], render_type(env, m['t'], ind))
     if m['q'] == 'O':
         s += ' OPTIONAL'
@@ -248,3 +250,66 @@ def render_module(name, env, types=None):
         lines.append('')
     lines.append('END')
     return '\n'.join(lines) + '\n'
+
+
+# ---------------------------------------------------------------------------------------------
+# arrangements (spec/ArrangeSem.tla): several modules with IMPORTS, assignments in a given order
+
+def _arr_home(arr, mi, name):
+    """Index of the module whose assignment `name` denotes when written in module mi."""
+    mod = arr['mods'][mi]
+    if any(a['n'] == name for a in mod['asg']):
+        return mi
+    for imp in mod['imp']:
+        if name in imp['syms']:
+            for j, m in enumerate(arr['mods']):
+                if m['name'] == imp['from']:
+                    return j
+    return None
+
+
+def _arr_base(arr, mi, T, depth=0):
+    """The non-reference descriptor a type denotes (only used to pick the value notation of DEFAULT)."""
+    while T['k'] == 'REF' and depth < 50:
+        h = _arr_home(arr, mi, T['name'])
+        if h is None:
+            return T
+        mi = h
+        T = next(a['t'] for a in arr['mods'][mi]['asg'] if a['n'] == T['name'])
+        depth += 1
+    return T
+
+
+def _names_in(T, acc):
+    if isinstance(T, dict):
+        if T.get('k') == 'REF':
+            acc.add(T['name'])
+        for key, val in T.items():
+            if key != 'd':
+                _names_in(val, acc)
+    elif isinstance(T, list):
+        for x in T:
+            _names_in(x, acc)
+
+
+def render_arrangement(arr):
+    """[(module name, ASN.1 text)] in the arrangement's module order."""
+    out = []
+    for mi, mod in enumerate(arr['mods']):
+        names = set()
+        for a in mod['asg']:
+            _names_in(a['t'], names)
+        for imp in mod['imp']:
+            names.update(imp['syms'])
+        env = {'tagdef': mod['td'], 'extimp': False,
+               'types': {n: _arr_base(arr, mi, {'k': 'REF', 'name': n, 'tags': []}) for n in names}}
+        lines = ['%s DEFINITIONS %s ::= BEGIN' % (mod['name'], TAGDEF[mod['td']]), '']
+        if mod['imp']:
+            lines.append('IMPORTS ' + ' '.join('%s FROM %s' % (', '.join(i['syms']), i['from']) for i in mod['imp']) + ';')
+            lines.append('')
+        for a in mod['asg']:
+            lines.append('%s ::= %s' % (a['n'], render_type(env, a['t'])))
+            lines.append('')
+        lines.append('END')
+        out.append((mod['name'], '\n'.join(lines) + '\n'))
+    return out
